@@ -33,11 +33,12 @@ def strings(rng, n=24):
 TYPES = ["Int", "Float", "String", "Array", "List", "Table", "Tree", "Tuple", "Ref", "Box", "Type", "File", "Range", "Slice", "Zip", "Map",
          "Filter", "Thread", "Mutex", "Function"]
 
-def blobs(rng, n=16):
-    out = [bytes(16), bytes([0] * 15 + [1]), bytes([1] + [0] * 15), bytes([0x7f] * 16), bytes([0x80] * 16), bytes([0xff] * 16),
-           bytes([0] * 15 + [0x80]), bytes([0] * 15 + [0x7f])]
+def blobs(rng, n=16, size=16):
+    z = size - 1
+    out = [bytes(size), bytes([0] * z + [1]), bytes([1] + [0] * z), bytes([0x7f] * size), bytes([0x80] * size), bytes([0xff] * size),
+           bytes([0] * z + [0x80]), bytes([0] * z + [0x7f])]
     while len(out) < n:
-        out.append(bytes(rng.getrandbits(8) for _ in range(16)))
+        out.append(bytes(rng.getrandbits(8) for _ in range(size)))
     return out[:n]
 
 def hx(b):
@@ -98,7 +99,8 @@ def hash_exec(rng):
     groups = []
     kinds_of = {}
     nocopy = set()
-    for kind, vals in (("I", ints(rng, 8)), ("F", floats(rng, 8)), ("S", strings(rng, 8)), ("Y", TYPES[:6]), ("X", blobs(rng, 6))):
+    for kind, vals in (("I", ints(rng, 8)), ("F", floats(rng, 8)), ("S", strings(rng, 8)), ("Y", TYPES[:6]), ("X", blobs(rng, 6)),
+                       ("X", blobs(rng, 6, 12)), ("X", blobs(rng, 6, 5))):
         d, toks = define(kind, vals, t); L += d; t += len(toks)
         for tk in toks:
             g = [tk]
@@ -108,7 +110,7 @@ def hash_exec(rng):
                 for cls in ("stack", "heap", "elem"):
                     L.append("alt %d %d %s" % (t, tk, cls)); g.append(t); t += 1
             groups.append(g)
-            kinds_of[g[0]] = kind
+            kinds_of[g[0]] = kind + (str(len(vals[0])) if kind == "X" else "")      # plain structs of different sizes are different types
     # containers reached through different histories
     iv = [0, 55, 110, 165, 4, 59, 7, 2**40]
     d, it = define("I", iv, t); L += d; t += len(it)
@@ -162,7 +164,7 @@ def hash_exec(rng):
 def assign_swap_exec(rng):
     L = ["reset"]; t = 1
     ops = []
-    for kind, vals in (("I", ints(rng, 6)), ("F", floats(rng, 6)), ("S", strings(rng, 6)), ("X", blobs(rng, 4))):
+    for kind, vals in (("I", ints(rng, 6)), ("F", floats(rng, 6)), ("S", strings(rng, 6)), ("X", blobs(rng, 4)), ("X", blobs(rng, 4, 12)), ("X", blobs(rng, 4, 5))):
         d, toks = define(kind, vals, t); L += d; t += len(toks)
         cp = []
         for tk in toks:
